@@ -32,6 +32,17 @@ class Harness:
     params: dict = field(default_factory=dict)
 
 
+def borrowed(module, name, new_name, **changes):
+    """A harness of another property registered under this one too (same scenario, own name): used where one scenario
+    decides clauses of two properties.  The other module is imported on first use (module-level import order is free)."""
+    import dataclasses
+    mod = importlib.import_module("harness." + module)
+    for h in mod.HARNESSES:
+        if h.name == name:
+            return dataclasses.replace(h, name=new_name, **changes)
+    raise KeyError(f"{module} has no harness {name}")
+
+
 def load(prop_id):
     mod = importlib.import_module("harness." + prop_id.lower())
     return mod
@@ -185,8 +196,11 @@ def run_property(prop_id, tier, seed=0):
         status = 1
     ev["status"] = {0: "holds-within-bounds", 1: "violation", 2: "inconclusive", 3: "harness-error"}[status]
     ev["messages"] = messages
-    os.makedirs(os.path.join(VERIF, "evidence"), exist_ok=True)
-    with open(os.path.join(VERIF, "evidence", f"{prop_id}.json"), "w") as f:
+    # evidence describes /repo; a run against another tree (--repo, used for seeded changes and canaries) keeps its record apart
+    other = os.path.realpath(os.environ.get("VERIF_REPO", "/repo")) != os.path.realpath("/repo")
+    evdir = os.path.join(VERIF, "evidence") if not other else os.path.join("/var/tmp/repid-verif-evidence-other", str(os.getpid()))
+    os.makedirs(evdir, exist_ok=True)
+    with open(os.path.join(evdir, f"{prop_id}.json"), "w") as f:
         json.dump(ev, f, indent=1, default=str)
     for line in dict.fromkeys(out_lines):
         print(line)
